@@ -1,25 +1,57 @@
-import Clover.Probe.C10
-import Clover.Model.Value
-/-! # C10 — values are totally ordered and index keys sort in exactly that order -/
+import Clover.Proofs.GoCmp
+/-! # C10 — values are totally ordered and index keys sort in exactly that order
+
+`goCmp` is the model of `internal.Compare` (validated against the real function on every run);
+`goKeyTail` is the model of the index key bytes after the per-index prefix. -/
 namespace CV.Props.C10
 open CV
 
-/-- The comparison by exact value is a total preorder on all values: reflexive, sign-antisymmetric,
-    transitive (numbers by numeric value across int/uint/float, strings bytewise, arrays and
-    objects lexicographically, type rank first). -/
+/-- On the supported domain (integers beyond 2^53 only among integers, not against floats) the
+    comparison the code performs is the comparison by exact value. -/
+theorem compare_is_by_value (a b : Value) (h : PairDom a b) : goCmp a b = cmp nkey a b := goCmp_eq a b h
+
+/-- The comparison by exact value is a total preorder on ALL values: reflexive, sign-antisymmetric,
+    transitive; it ranks types nil < number < string < object < array < bool < time (`Value.rank`),
+    compares strings bytewise and arrays/objects lexicographically (`cmp`). -/
 theorem preorder :
     (∀ a, cmp nkey a a = 0) ∧ (∀ a b, cmp nkey a b = -cmp nkey b a) ∧
     (∀ a b c, cmp nkey a b ≤ 0 → cmp nkey b c ≤ 0 → cmp nkey a c ≤ 0) := c10_preorder
 
-/-- On the key domain (integers within ±2^53, non-NaN doubles, times from 1970 on, at any
-    nesting depth) the index key bytes, followed by any document ids, sort exactly as the values
-    compare; equal values have equal keys. -/
-theorem key_order (a b : Value) (da : Dom numOK a) (db : Dom numOK b) :
-    (cmp nkey a b < 0 → ∀ id1 id2, OC.diffLt (goKeyTail a ++ id1) (goKeyTail b ++ id2) = true) ∧
-    (cmp nkey a b = 0 → goKeyTail a = goKeyTail b) := c10_key_order a b da db
+/-- Hence `Compare` itself is reflexive, sign-antisymmetric and transitive on every pair / triple
+    of the domain: all three values free of floats (any integer magnitude, mixed int64/uint64), or
+    all numbers exactly representable (|n| ≤ 2^53, any non-NaN double incl. ±0 and ±Inf). -/
+theorem compare_refl (a : Value) (h : PairDom a a) : goCmp a a = 0 := by
+  rw [goCmp_eq a a h]; exact c10_preorder.1 a
+theorem compare_antisymm (a b : Value) (h : PairDom a b) (h' : PairDom b a) : goCmp a b = -goCmp b a := by
+  rw [goCmp_eq a b h, goCmp_eq b a h']; exact c10_preorder.2.1 a b
+theorem compare_trans (a b c : Value) (hab : PairDom a b) (hbc : PairDom b c) (hac : PairDom a c)
+    (h1 : goCmp a b ≤ 0) (h2 : goCmp b c ≤ 0) : goCmp a c ≤ 0 := by
+  rw [goCmp_eq a b hab] at h1; rw [goCmp_eq b c hbc] at h2; rw [goCmp_eq a c hac]
+  exact c10_preorder.2.2 a b c h1 h2
 
-/-- non-vacuity: the domain predicate is satisfiable by a non-trivial nested value -/
+/-- Different type ranks decide the comparison (nil < number < string < object < array < bool < time). -/
+theorem rank_decides (a b : Value) (h : a.rank ≠ b.rank) : cmp nkey a b = a.rank - b.rank :=
+  cmp_of_rank_ne nkey a b h
+
+/-- On the key domain (integers within ±2^53, non-NaN doubles, times from 1970 on, at any nesting
+    depth) the index key bytes, followed by ANY document ids, sort exactly as `Compare` orders the
+    values; values that compare equal have equal keys — so an index range scan and a
+    comparison-based filter agree. -/
+theorem key_order (a b : Value) (da : Dom numOK a) (db : Dom numOK b) :
+    (goCmp a b < 0 → ∀ id1 id2, OC.diffLt (goKeyTail a ++ id1) (goKeyTail b ++ id2) = true) ∧
+    (goCmp a b = 0 → goKeyTail a = goKeyTail b) := by
+  have hp : PairDom a b := Or.inr ⟨dom_numsOK a da, dom_numsOK b db⟩
+  rw [goCmp_eq a b hp]
+  exact c10_key_order a b da db
+
+/-- `diffLt` (decided at a differing byte) implies the bytewise order `bytes.Compare` uses. -/
+theorem diffLt_is_bytewise_less (x y : Bytes) (h : OC.diffLt x y = true) : OC.lexLt x y = true :=
+  OC.diffLt_imp_lexLt x y h
+
+/-- non-vacuity: the domain predicates are satisfiable by non-trivial nested values -/
 example : Dom numOK (.arr [.num (.int 5), .num (.float 0x4014000000000000), .str [1], .time 7 0]) := by
   simp [Dom, DomL, numOK]
+example : PairDom (.num (.int (-9223372036854775808))) (.num (.uint 18446744073709551615)) :=
+  Or.inl ⟨by simp [NoFloat, AllNum, Num.isFloat], by simp [NoFloat, AllNum, Num.isFloat]⟩
 
 end CV.Props.C10
